@@ -22,6 +22,7 @@ type Point struct {
 }
 
 type thread struct {
+	pc     int
 	id     int
 	fn     func()
 	resume chan struct{}
@@ -46,6 +47,33 @@ type Exec struct {
 	Trace []string
 	// Watchdog is the time the scheduler waits for the baton holder.
 	Watchdog time.Duration
+	// KeyFn, if set, is evaluated at every choice point (before choosing);
+	// Keys[i] is the global state key at Points[i]. Used for visited-state
+	// pruning: the key must determine all future behaviour and the oracle's
+	// verdict (see DESIGN.md §4.2).
+	KeyFn func() string
+	Keys  []string
+}
+
+// Cur returns the id of the thread holding the baton (-1 outside a run).
+func (e *Exec) Cur() int {
+	if e.cur == nil {
+		return -1
+	}
+	return e.cur.id
+}
+
+// PCs returns, per thread, the number of scheduling points it has passed and
+// whether it is finished.
+func (e *Exec) PCs() []int {
+	out := make([]int, len(e.threads))
+	for i, t := range e.threads {
+		out[i] = t.pc
+		if t.done {
+			out[i] = -1
+		}
+	}
+	return out
 }
 
 // BlockUntil implements vsync.Scheduler. It must only be called by the
@@ -53,6 +81,7 @@ type Exec struct {
 func (e *Exec) BlockUntil(what string, ok func() bool) {
 	t := e.cur
 	t.what, t.ok = what, ok
+	t.pc++
 	e.yield <- struct{}{}
 	<-t.resume
 }
@@ -150,6 +179,13 @@ func Run(prefix []int, bodies []func(), wire func(e *Exec)) *Exec {
 				ids[k] = t.id
 			}
 			e.Points = append(e.Points, Point{Enabled: ids, Chosen: idx, RunningEnabled: runningEnabled})
+			if e.KeyFn != nil {
+				k := e.KeyFn()
+				if runningEnabled {
+					k += fmt.Sprintf("|run=%d", e.cur.id)
+				}
+				e.Keys = append(e.Keys, k)
+			}
 		}
 		t := enabled[idx]
 		e.cur = t
@@ -187,6 +223,8 @@ type Stats struct {
 	MaxSteps   int
 	Bound      int
 	Capped     bool
+	Pruned     int64 // choice points whose alternatives were skipped (state seen before)
+	States     int   // distinct state keys expanded
 }
 
 // Explore enumerates all executions with at most bound preemptions
@@ -195,7 +233,19 @@ type Stats struct {
 // execution. shard/nshards split the first-level subtrees across processes.
 // maxExec caps the number of executions (0 = none).
 func Explore(bound int, shard, nshards int, maxExec int64, run func(prefix []int) *Exec, check func(e *Exec) bool) (Stats, error) {
+	return ExplorePruned(bound, shard, nshards, maxExec, false, run, check)
+}
+
+// ExplorePruned is Explore with optional visited-state pruning (only sound
+// without a preemption bound, i.e. bound < 0: a state's remaining budget is
+// not part of its key): the alternatives at a choice point are expanded only
+// the first time its state key is seen.
+func ExplorePruned(bound int, shard, nshards int, maxExec int64, prune bool, run func(prefix []int) *Exec, check func(e *Exec) bool) (Stats, error) {
 	st := Stats{Bound: bound}
+	visited := map[string]bool{}
+	if prune && bound >= 0 {
+		return st, fmt.Errorf("visited-state pruning requires unbounded exploration")
+	}
 	var top int
 	var rec func(prefix []int, depth int) (bool, error)
 	rec = func(prefix []int, depth int) (bool, error) {
@@ -226,6 +276,16 @@ func Explore(bound int, shard, nshards int, maxExec int64, run func(prefix []int
 		}
 		for i := len(prefix); i < len(x.Points); i++ {
 			p := x.Points[i]
+			if prune {
+				if i >= len(x.Keys) {
+					return false, fmt.Errorf("pruning requested but no state key at point %d", i)
+				}
+				if visited[x.Keys[i]] {
+					st.Pruned++
+					continue
+				}
+				visited[x.Keys[i]] = true
+			}
 			cost := x.Preemptions(i)
 			for alt := 1; alt < len(p.Enabled); alt++ {
 				c := cost
@@ -256,5 +316,6 @@ func Explore(bound int, shard, nshards int, maxExec int64, run func(prefix []int
 		return true, nil
 	}
 	_, err := rec(nil, 0)
+	st.States = len(visited)
 	return st, err
 }
